@@ -251,6 +251,12 @@ class Ctx:
                 return 'ok'
             if k is False:
                 return 'fail'
+        if vv and vv[0] == 'ncall':
+            k = self.result_known(vv[1])
+            if k is True:
+                return 'fail'
+            if k is False:
+                return 'ok'
         return 'unknown'
 
     def atom(self, key):
@@ -326,10 +332,16 @@ class Explorer:
                     cands.setdefault(x['id'], x['name'])
         for p in fn.params:
             cands.setdefault(p['id'], p['name'])
+        synth = {i: n for i, n in cands.items() if i >= 900000000}     # inlined helpers' return values
         if track is None:
-            return {}
+            return synth
         if track == 'auto':
-            used = set()
+            used = set(synth)
+            for b, i, ev in fn.events():
+                if ev['ev'] == 'assign' and is_ref(ev['e']['l']) and ev['e']['l'].get('id', 0) >= 900000000:
+                    for x in walk(ev['e']['r']):
+                        if is_ref(x) and 'id' in x:
+                            used.add(x['id'])
             for b in fn.blocks.values():
                 t = b.get('term')
                 if t and t.get('cond') is not None:
@@ -342,7 +354,9 @@ class Explorer:
                         if is_ref(x) and 'id' in x:
                             used.add(x['id'])
             return {i: n for i, n in cands.items() if i in used}
-        return {i: n for i, n in cands.items() if n in track}
+        out = {i: n for i, n in cands.items() if n in track}
+        out.update(synth)
+        return out
 
     # -- env ----------------------------------------------------------------
     def _abstract(self, rhs, env):
@@ -359,6 +373,19 @@ class Explorer:
             return ('nz',)
         if k == 'un' and rhs['op'] == '&':
             return ('nz',)
+        if k == 'un' and rhs['op'] == '!':
+            inner = self._abstract(rhs['e'], env)
+            if inner[0] == 'call':
+                return ('ncall', inner[1])
+            if inner[0] == 'ncall':
+                return ('call', inner[1])
+            if inner[0] == 'c':
+                return ('c', 0 if inner[1] else 1)
+            if inner[0] == 'nz':
+                return ('c', 0)
+            return ('?',)
+        if k in ('paren', 'cast') and isinstance(rhs.get('e'), dict):
+            return self._abstract(rhs['e'], env)
         return ('?',)
 
     def _apply_event(self, ev, env):
@@ -382,7 +409,7 @@ class Explorer:
                 setv(('res', cid), None)
             cur = new if new is not None else env
             for key, val in list(cur.items()):
-                if key[0] == 'v' and val[0] in ('call', 'out') and val[1] == cid:
+                if key[0] == 'v' and val[0] in ('call', 'out', 'ncall') and val[1] == cid:
                     setv(key, ('?',))
             for a in c['args']:
                 inner = strip_addr(a)
@@ -448,6 +475,10 @@ class Explorer:
                     r = env.get(('res', v[1]))
                     if isinstance(r, bool) and v[0] == 'call':
                         return r == sense
+                if v[0] == 'ncall':
+                    r = env.get(('res', v[1]))
+                    if isinstance(r, bool):
+                        return (not r) == sense
             return None
         if atom[0] == 'cmp' and atom[1] == '==':
             l, r = atom[2], atom[3]
@@ -510,6 +541,8 @@ class Explorer:
                     # the variable is tracked, so the outcome of the call it holds is
                     # remembered even if the callee is not in `calls`
                     new[('res', v[1])] = sense
+                elif v and v[0] == 'ncall':
+                    new[('res', v[1])] = not sense
                 elif v is None or v[0] in ('?', 'undef', 'out'):
                     new[('v', e['id'])] = ('nz',) if sense else ('c', 0)
         elif atom[0] == 'cmp' and atom[1] == '==':
